@@ -106,7 +106,7 @@ Scrape == /\ nops < MaxOps /\ Quiet /\ ever # {}
           /\ UNCHANGED <<dbm, ent, ever, scr, snap>>
 
 \* AddClosed -> stopConnection: reports under the entry's label and removes the entry (a later Begin is a first tunnel again)
-Close(i) == /\ nops < MaxOps /\ ent[i].st = "active" /\ scr = "idle"
+Close(i) == /\ nops < MaxOps /\ ent[i].st = "active" /\ Quiet   \* the driver calls it synchronously: nothing may hold the lock
             /\ seen' = seen \cup {St(i, ent[i].db)}
             /\ ent' = [ent EXCEPT ![i] = [st |-> "none", db |-> "unset"]]
             /\ Step([a |-> "Close", ip |-> i])
